@@ -58,7 +58,10 @@ def shard(p):
     cases = []
     while len(cases) < p["n"]:
         depth = rng.randint(1, p["depth"])
-        t = exact.gen_tree(rng, depth, max_digits=p["digits"], max_exp=p["max_exp"])
+        if rng.random() < 0.004:
+            t = exact.gen_chain(rng, rng.choice([20, 40, 65, 100, 130, 260, 300]))      # long flat chains: counters, fixed stacks, quadratic folds
+        else:
+            t = exact.gen_tree(rng, depth, max_digits=p["digits"], max_exp=p["max_exp"])
         if t[0] == "lit" and rng.random() < 0.8:
             continue
         try:
